@@ -67,17 +67,20 @@ Create(q, e) ==
        THEN ex' = TRUE /\ en' = e /\ qos' = q /\ lastOp' = Op("Create", [q |-> q, en |-> e], "Ok", "create:accepted")
        ELSE UNCHANGED <<ex, en, qos>> /\ lastOp' = Op("Create", [q |-> q, en |-> e], "InconsistentPolicy", "create:inconsistent")
 
-SetQos(q) ==
+SetQosAs(name, q, args, pre) ==
     /\ ex /\ Tick /\ UNCHANGED <<ex, en>>
     /\ IF ~Consistent(q) /\ en /\ ImmutableChanged(qos, q)
-       THEN qos' = qos /\ lastOp' = Op("SetQos", [q |-> q], [anyOf |-> {"InconsistentPolicy", "ImmutablePolicy"}], "set:inconsistent-and-immutable")
+       THEN qos' = qos /\ lastOp' = Op(name, args, [anyOf |-> {"InconsistentPolicy", "ImmutablePolicy"}], pre \o ":inconsistent-and-immutable")
        ELSE IF ~Consistent(q)
-       THEN qos' = qos /\ lastOp' = Op("SetQos", [q |-> q], "InconsistentPolicy", "set:inconsistent")
+       THEN qos' = qos /\ lastOp' = Op(name, args, "InconsistentPolicy", pre \o ":inconsistent")
        ELSE IF en /\ ImmutableChanged(qos, q)
-       THEN qos' = qos /\ lastOp' = Op("SetQos", [q |-> q], "ImmutablePolicy", "set:immutable")
-       ELSE qos' = q /\ lastOp' = Op("SetQos", [q |-> q], "Ok",
-                                     IF ~en THEN (IF ImmutableChanged(qos, q) THEN "set:accepted-immutable-before-enable" ELSE "set:accepted-before-enable")
-                                     ELSE IF q = qos THEN "set:accepted-same" ELSE "set:accepted-mutable")
+       THEN qos' = qos /\ lastOp' = Op(name, args, "ImmutablePolicy", pre \o ":immutable")
+       ELSE qos' = q /\ lastOp' = Op(name, args, "Ok",
+                                     IF ~en THEN (IF ImmutableChanged(qos, q) THEN pre \o ":accepted-immutable-before-enable" ELSE pre \o ":accepted-before-enable")
+                                     ELSE IF q = qos THEN pre \o ":accepted-same" ELSE pre \o ":accepted-mutable")
+SetQos(q) == SetQosAs("SetQos", q, [q |-> q], "set")
+\* set_qos(QosKind::Default): the default QoS of the kind (the factory defaults are never changed here) under the same rules
+SetQosDefault == SetQosAs("SetQosDefault", Default, [x |-> 0], "setdefault")
 
 Enable ==
     /\ ex /\ Tick /\ Kind \in CanBeDisabled
@@ -88,6 +91,7 @@ Emit == PrintT(<<"EDGE", ToJson([s |-> Proj, o |-> lastOp', d |-> Proj'])>>)
 Step ==
     \/ \E q \in Values, e \in (IF Kind \in CanBeDisabled THEN BOOLEAN ELSE {TRUE}) : Create(q, e)
     \/ \E q \in Values : SetQos(q)
+    \/ SetQosDefault
     \/ Enable
 Next == Step /\ Emit
 Spec == Init /\ [][Next]_vars
